@@ -20,3 +20,6 @@ func Point(site int) {
 		(*h)(site)
 	}
 }
+
+// unlockSite is the pseudo site of the yield point that follows every Unlock/RUnlock.
+const unlockSite = -1
